@@ -7,6 +7,9 @@ CLAIMED = {
  "C11": dict(tech=TECH + "RFC 1661 agreement monitor, reply-shape checks, bounded termination against a silent peer",
    text="Seeded exploration of event/packet/timer orderings of the real LCP/IPCP/IPv6CP automata with their real restart timers on a virtual clock; the restart-timer callback is a scheduler task, so timer-vs-packet races (stale callbacks) are explored and replayable. Sampling, not proof.",
    note="Trusts the Go runtime/synctest, the instrumenter (transparency-tested against the repo's own tests), and the harness's agreement monitor. Packets are delivered only while the lower layer is up.", ref="§5 C11"),
+ "C08": dict(tech=TECH + "RADIUS-side record stream + acknowledgement ledger: Stop ordering, exactly-once after ack (crash-free histories), eventual Stop or durable queue after a fault-free tail, identifier and 64-bit counter exactness",
+   text="Seeded exploration of start/stop/counter/outage histories of the real AccountingManager and radius.Client (every goroutine a scheduler task) over a simulated disk and RADIUS server, with a process crash injected at tape-chosen disk and network steps (including inside WriteFile), graceful stops and restarts from the surviving directory. Sampling, not proof.",
+   note="Process-crash disk model (no power loss); request/reply loss stays inside the configured retry budget by construction; layeh's UDP retransmit loop is replaced by the simulated transport. Genuine defects that are not repaired are listed in known_findings.json by fingerprint.", ref="§5 C08"),
 }
 NA = {
  "C06": "static relation between Go and C declarations (sizes, offsets, byte order, key derivation for all inputs): no schedule, clock, fault or history can change it, so it is not a simulation target",
